@@ -182,6 +182,70 @@ RScript(vs, sd, t, n, pending, last, macro, atseen) ==
                                                                                       THEN [g EXCEPT !.op = "d", !.keys = <<>>] ELSE g)]>>,
                       last, macro, atseen)
 
+
+Start0 == [NewVi(RegNames, {97, 98}) EXCEPT !.ai = EnvN("AI", 1) = 1]
+(* ---- exhaustive single steps (profile "exh") ----------------------------------------------------------------------------
+   Every command of ExhCmds from every cursor position of a small buffer: the cursor is put on the position with G, 0 and l,
+   the command runs, and an undo takes the text back when it changed.  All steps go through ViCmd like any other, so the
+   model stays in step with the editor (registers, marks and the undo log accumulate).  EXHTEXT selects the buffer,
+   EXHLO..EXHHI the range of positions of this table. *)
+ExhTexts == << <<102,111,111,32,98,97,114,40,98,97,122,41,32,113,10,10,9,105,110,100,32,120,10,233,28450,32,120,769,121>>,
+               <<97,46,98,44,32,99,10,123,10,9,9,120,32,125,32,121,10,125,10,32,32,116,119,111,32,32,115,112>>,
+               <<102,40,97,44,10,32,32,32,32,32,32,98,41,32,120,10,97,97,97,32,98,98,98,32,32,10,65,98,32,97,66>> >>
+MotCh(k, ch, c1) == [k |-> "mot", m |-> [k |-> k, ch |-> ch, re |-> <<>>, so |-> 0], c1 |-> c1, reg |-> 0]
+OpC(op, m, c1, keys) == [k |-> "op", op |-> op, m |-> m, c1 |-> c1, c2 |-> 0, reg |-> 0, keys |-> keys]
+ExhMotKs == <<"h", "l", "j", "k", "^", "$", "w", "b", "e", "W", "B", "E", "G", "+", "-", "_", "{", "}", "H", "M", "L", " ", "^H">>
+ExhOpMs == <<Mot("w"), Mot("e"), Mot("b"), Mot("$"), Mot("0"), Mot("^"), Mot("l"), Mot("h"), Mot("j"), Mot("k"), Mot("dbl"), Mot("G"),
+             Mot("%"), Mot("}"), [k |-> "f", ch |-> 97, re |-> <<>>, so |-> 0], [k |-> "t", ch |-> 32, re |-> <<>>, so |-> 0],
+             Mot("W"), Mot("B"), Mot("{")>>
+ExhOps == IF EnvN("EXHFULL", 0) = 1 THEN <<"d", "y", "c", "g~", ">", "gU", "<">> ELSE <<"d", "y", "c">>
+ExhCnts == IF EnvN("EXHFULL", 0) = 1 THEN <<0, 2, 3>> ELSE <<0, 2>>
+ExhCmds ==
+    LET mots == [i \in 1..(Len(ExhMotKs) * Len(ExhCnts)) |->
+                    MotC(ExhMotKs[((i - 1) \div Len(ExhCnts)) + 1], ExhCnts[((i - 1) % Len(ExhCnts)) + 1])]
+        fixed == <<MotC("0", 0), MotC("%", 0), MotC("|", 0), MotC("|", 3), MotC("|", 9),
+                   MotCh("f", 97, 0), MotCh("f", 32, 2), MotCh("F", 98, 0), MotCh("t", 120, 0), MotCh("T", 40, 0), MotCh("f", 233, 0), MotCh("t", 41, 0)>>
+        ops == [i \in 1..(Len(ExhOps) * Len(ExhOpMs) * Len(ExhCnts)) |->
+                   LET o == ExhOps[((i - 1) \div (Len(ExhOpMs) * Len(ExhCnts))) + 1]
+                       m == ExhOpMs[(((i - 1) \div Len(ExhCnts)) % Len(ExhOpMs)) + 1]
+                       c == ExhCnts[((i - 1) % Len(ExhCnts)) + 1]
+                   IN OpC(o, m, IF m.k \in {"0", "%"} THEN 0 ELSE c, IF o = "c" THEN <<88, 233>> ELSE <<>>)]
+        simple == <<[k |-> "x", c1 |-> 0, reg |-> 0], [k |-> "x", c1 |-> 3, reg |-> 0], [k |-> "X", c1 |-> 0, reg |-> 0], [k |-> "X", c1 |-> 2, reg |-> 0],
+                    [k |-> "D", c1 |-> 0, reg |-> 0], [k |-> "~", c1 |-> 0, reg |-> 0], [k |-> "~", c1 |-> 3, reg |-> 0], [k |-> "Y", c1 |-> 0, reg |-> 0],
+                    [k |-> "J", c1 |-> 0, reg |-> 0], [k |-> "J", c1 |-> 3, reg |-> 0],
+                    [k |-> "r", c1 |-> 0, ch |-> 120, reg |-> 0], [k |-> "r", c1 |-> 2, ch |-> 233, reg |-> 0], [k |-> "r", c1 |-> 0, ch |-> 10, reg |-> 0],
+                    [k |-> "p", c1 |-> 0, reg |-> 0], [k |-> "P", c1 |-> 0, reg |-> 0], [k |-> "p", c1 |-> 2, reg |-> 0],
+                    [k |-> "C", c1 |-> 0, reg |-> 0, keys |-> <<90>>], [k |-> "s", c1 |-> 0, reg |-> 0, keys |-> <<90, 10, 121>>],
+                    [k |-> "s", c1 |-> 2, reg |-> 0, keys |-> <<>>], [k |-> "S", c1 |-> 0, reg |-> 0, keys |-> <<233>>],
+                    [k |-> "ins", ik |-> "i", keys |-> <<90>>, reg |-> 0, c1 |-> 0], [k |-> "ins", ik |-> "a", keys |-> <<90, 10>>, reg |-> 0, c1 |-> 0],
+                    [k |-> "ins", ik |-> "I", keys |-> <<90>>, reg |-> 0, c1 |-> 0], [k |-> "ins", ik |-> "A", keys |-> <<233>>, reg |-> 0, c1 |-> 0],
+                    [k |-> "ins", ik |-> "o", keys |-> <<90>>, reg |-> 0, c1 |-> 0], [k |-> "ins", ik |-> "O", keys |-> <<>>, reg |-> 0, c1 |-> 0]>>
+    IN IF Env("EXHSET", "all") = "mot" THEN mots \o fixed ELSE IF Env("EXHSET", "all") = "edit" THEN ops \o simple ELSE mots \o fixed \o ops \o simple
+ExhStep(vs, c0) ==      \* [st: the step record, v: the state after it]
+    LET c == IF c0.k = "op" /\ c0.op = "c" /\ ~ViCmd(vs, c0).ok THEN [c0 EXCEPT !.op = "d", !.keys = <<>>] ELSE c0
+        v1 == ViCmd(vs, c)
+    IN [st |-> [keys |-> Keys(c), kind |-> c.k, sub |-> IF c.k = "mot" THEN c.m.k ELSE IF c.k = "op" THEN c.op ELSE c.k,
+                exp |-> Proj(v1), thm |-> IF Thm(vs, c, v1) THEN 1 ELSE 0], v |-> v1]
+ExhPositions(vs) == LET rows == 0..(NR(vs) - 1) IN
+                    SetToSeq({<<r, o>> : r \in rows, o \in 0..24} \cap {<<r, o>> \in (rows \X (0..24)) : o < Max2(1, Len(Lines(vs.ed)[r + 1]))})
+RECURSIVE ExhRun(_, _, _, _, _, _)
+ExhRun(vs, plist, pi, ci, phi, cmds) ==
+    IF pi > phi \/ pi > Len(plist) THEN <<>>
+    ELSE IF ci > Len(cmds) THEN ExhRun(vs, plist, pi + 1, 1, phi, cmds)
+    ELSE LET pos == plist[pi]
+             a == ExhStep(vs, MotC("G", pos[1] + 1))
+             b == ExhStep(a.v, MotC("0", 0))
+             c == IF pos[2] > 0 THEN ExhStep(b.v, MotC("l", pos[2])) ELSE b
+             d == ExhStep(c.v, cmds[ci])
+             e == IF Lines(d.v.ed) # Lines(c.v.ed) THEN ExhStep(d.v, [k |-> "u", c1 |-> 0, reg |-> 0]) ELSE d
+         IN <<a.st, b.st>> \o (IF pos[2] > 0 THEN <<c.st>> ELSE <<>>) \o <<d.st>> \o (IF Lines(d.v.ed) # Lines(c.v.ed) THEN <<e.st>> ELSE <<>>)
+            \o ExhRun(e.v, plist, pi, ci + 1, phi, cmds)
+ExhScript ==
+    LET first == ExhStep(Start0, Ins(ExhTexts[EnvN("EXHTEXT", 1)]))
+        plist == ExhPositions(first.v)
+    IN [seed |-> 0 - (1000 * EnvN("EXHTEXT", 1) + EnvN("EXHLO", 1)), profile |-> "exh", ai |-> EnvN("AI", 1), npos |-> Len(plist),
+        steps |-> <<first.st>> \o ExhRun(first.v, plist, EnvN("EXHLO", 1), 1, EnvN("EXHHI", 1), ExhCmds)]
+
 (* fixed scripts: replays of findings that every run repeats *)
 Corpus == <<
    (* KF-search-wordctx: /\<bar with the cursor inside "foobar" *)
@@ -199,9 +263,10 @@ Fixed(vs, cs, t) ==
 Seed0 == EnvN("SEED0", 1)
 NScripts == EnvN("NSCRIPTS", 4)
 NSteps == EnvN("NSTEPS", 30)
-Start == [NewVi(RegNames, {97, 98}) EXCEPT !.ai = EnvN("AI", 1) = 1]
+Start == Start0
 Table == IF Profile = "corpus"
          THEN [k \in 1..Len(Corpus) |-> [seed |-> -k, profile |-> "corpus", ai |-> 1, steps |-> Fixed(Start, Corpus[k], 1)]]
+         ELSE IF Profile = "exh" THEN <<ExhScript>>
          ELSE IF Profile = "repeat"
          THEN [k \in 1..NScripts |-> [seed |-> Seed0 + k - 1, profile |-> Profile, ai |-> EnvN("AI", 1),
                                        steps |-> RScript(Start, Seed0 + k - 1, 1, NSteps, <<>>, [k |-> "none"], <<>>, FALSE)]]
